@@ -97,6 +97,15 @@ CHECKS['C17'] = dict(level=MC, ref='4 C17',
     note='bounded: 40 tensor variants (plain, complex, diagonal, hard/meta/nested fused, empty, scalar x 5 symmetries; lazily transposed or not), MPS plain/central block/non-unit factor in 3 symmetries, '
          'MPO, PEPS on 7 lattice types x 2 symmetries; quick replays a seeded 25% of case x variant; environments and MpoPBC not yet covered',
     technique='TLA+ state machine of serialisation routes (Serialize) + TLC exhaustive enumeration + replay of every terminal case into code + trace validation of observed outcomes')
+CHECKS['C04'] = dict(level=MC, ref='4 C04',
+    text='svd / qr / eigh events inside recorded programs (operand possibly lazily transposed and fused hard/meta; Hermitian operands A A^+ with legs of different fusion history). TLC (TraceTensor + '
+         'TensorOps!LeftFactor/RightFactor/NewLeg) computes the STRUCTURE of every factor exactly from the observed operand: legs and inherited fusion trees, position and signature of the connecting '
+         'leg, its charge sectors from the effective charges of the bipartition under Charges!Add (four sU/nU cases), dimension min(rows, cols) (exact when all blocks are stored, upper bound otherwise), '
+         'which factor carries the total charge, agreement of U/S/V on the connecting space, raw well-formedness; operands with prescribed integer spectra are compared per sector.',
+    note='reconstruction, isometry / co-isometry, non-negativity and ordering of S, upper-triangularity and non-negative diagonal of R are floating-point facts MEASURED by the harness (tolerance 1e-10 '
+         'relative, named in the check) and enter the trace as verdict bits that the spec requires to be TRUE - observed, not modelled. eig (bi-orthonormal pairs) and low-rank policies not covered. '
+         'bounded: 480 (quick) / 8000 (thorough) programs, ranks 2..6, all symmetries',
+    technique='TLA+ structure semantics of factorisations (TensorOps) + TLC trace validation; numeric clauses as measured verdicts')
 NA = {}
 m = {"version": 1, "setup_cmd": "true",
      "hooks": {"guard": "YASTN_VERIF", "enable": "no source hooks so far: the harness wraps the public API from outside and imports yastn live from /repo (override: VERIF_REPO)",
